@@ -25,7 +25,12 @@ class FlowFamily:
             if sub != 'loop' and rng.random() < 0.4:
                 w = flow.permute(wf, rng)
             sc_ = flow.scenario('', w, a, b, sched, rng.randrange(1 << 30), snap=opts.get('snap', 'rows'), store=opts.get('store', 'mem'))
-            if sched[2] == 'quiescent' and rng.random() < opts.get('evict', 0.25):
+            if sched[2] == 'quiescent' and opts.get('store') == 'sqlite' and rng.random() < opts.get('restart', 0.0):
+                # fault: the engine is stopped and a new one started on the same database at a quiescent point
+                sc_['faults'] = {'restart_at': sorted(set(rng.randint(1, 5) for _ in range(rng.randint(1, 2))))}
+                sc_['sched'] += '+restart'
+                sc_['watchdog_ms'] = 60000
+            elif sched[2] == 'quiescent' and rng.random() < opts.get('evict', 0.25):
                 # fault: the process is dropped from the cache at one or two quiescent points and reloaded by the next action
                 pts = sorted(set(rng.randint(1, 6) for _ in range(rng.randint(1, 2))))
                 sc_['faults'] = {'evict_at': pts}
